@@ -4,7 +4,7 @@ import random
 from . import core
 from .common import diff_streams
 
-LEVEL = "exploration"
+LEVEL = "proof"
 
 
 def naive_replay(ops):
